@@ -57,6 +57,11 @@ ALPHA = {
     # thorough: 4 names (one non-ASCII) x 6 doses
     "T24": [(n, d) for n in ("", "a", "ctl", "é药") for d in (-1.0, -0.0, 0.0, 5e-324, 1.0, 2.0)],
 }
+# derived screens: names that differ only in surrounding blanks, a named control at a positive dose
+ALPHA["L6"] = [(n, d) for n in ("x", "x ", "ctl") for d in (0.0, 1.0)]
+ALPHA["L4"] = [("x", 1.0), ("x ", 1.0), ("ctl", 1.0), ("x", 0.0)]
+DERIVED_NAMES = ["s", "s ", " s"]
+DERIVED_OPS = ["reload", "mask", "unmask", "random-holdout", "balanced-holdout", "reveal", "to-screen", "combine"]
 CONTROLS = ["", "ctl"]
 NAMES4 = ["", "ctl", "s", "é2"]  # sample / plate names: empty, the control name, ASCII, non-ASCII
 
@@ -75,6 +80,9 @@ BOUNDS = {
         "sample_plate_names": NAMES4,
         "memory": "every no-mapping screen also column-major (arity >= 2); read-only and big-endian arrays on the deterministic third of the cases whose digest is divisible by 3",
         "many_ids": "sparse probes with exactly n distinct samples / plates / conditions, n in {127..129, 200, 255..257, 32767..32769, 65535..65537}",
+        "derived_screens": "arity1 rows<=3 over L6 (names 'x', 'x ' (trailing blank), 'ctl' x doses 0,1) and arity2 2 rows over L4, sample names "
+                           "over 's','s ',' s', two plates: the screens that save/load, mask, unmask, both hold-out splits (fractions 0.5 and 1), "
+                           "reveal, sub-view to_screen and combine return are judged like constructed ones, against their own names and their own control name",
         "merge_histories": "3 plate layouts (3-4 plates, interleaved rows): every sequence of <= 2 merges (<= 3 for 3 plates) of ordered plate pairs, with fresh and with stale plate handles",
     },
     "thorough": {
@@ -179,6 +187,11 @@ def plan(tier, seed):
     items.append({"k": "manyids", "ns": [127, 128, 129, 200, 255, 256, 257]})
     items.append({"k": "manyids", "ns": [32767, 32768, 32769]})
     items.append({"k": "manyids", "ns": [65535, 65536, 65537]})
+    for arity, n, alpha in ((1, 1, "L6"), (1, 2, "L6"), (1, 3, "L6"), (2, 2, "L4")):
+        total = len(ALPHA[alpha]) ** (arity * n)
+        for c in CONTROLS:
+            for lo, hi in _chunks(total, 40):
+                items.append({"k": "derived", "alpha": alpha, "arity": arity, "rows": n, "control": c, "lo": lo, "hi": hi})
     for n in (1, 2, 3):
         screens("A9", 1, n)
     for n in (1, 2):
@@ -565,6 +578,99 @@ def run_manyids_case(case, col, verbose=False):
     col.nontriv("manyids", n)
 
 
+def _own_spec(s):
+    """The rows of a screen as the screen itself reports them."""
+    return {"tn": np.asarray(s.treatment_names).tolist(), "td": np.asarray(s.treatment_doses).tolist(),
+            "sn": np.asarray(s.sample_names).tolist(), "pn": np.asarray(s.plate_names).tolist()}
+
+
+def derived_screens(s0, op):
+    """Screens batchie itself builds from s0 (fully observed) with one library operation."""
+    from batchie import retrospective as R
+
+    if op == "reload":
+        import tempfile
+
+        fd, path = tempfile.mkstemp(prefix="c01re-", suffix=".h5", dir=env.SCRATCH_ROOT)
+        os.close(fd)
+        try:
+            s0.save_h5(path)
+            return [Screen.load_h5(path)]
+        finally:
+            if os.path.exists(path):
+                os.remove(path)
+    if op == "mask":
+        return [R.mask_screen(s0)]
+    if op == "unmask":
+        return [R.unmask_screen(R.mask_screen(s0))]
+    if op == "random-holdout":
+        out = []
+        for frac in (0.5, 1.0):
+            out += list(R.create_random_holdout(s0, fraction=frac, rng=np.random.default_rng(3)))
+        return out
+    if op == "balanced-holdout":
+        out = []
+        for frac in (0.5, 1.0):
+            out += list(R.create_plate_balanced_holdout_set_among_masked_plates(R.mask_screen(s0), fraction=frac, rng=np.random.default_rng(3)))
+        return out
+    if op == "reveal":
+        return [R.reveal_plates(s0, R.mask_screen(s0), [0])]
+    if op == "to-screen":
+        return [s0.plates[0].to_screen(), s0.subset(np.arange(s0.size) == s0.size - 1).to_screen()]
+    if op == "combine":
+        pl = s0.plates
+        return [pl[-1].to_screen().combine(pl[0].to_screen()), s0.combine(pl[0].to_screen())]
+    raise KeyError(op)
+
+
+def run_derived_case(case, col, verbose=False):
+    spec, control = case["spec"], case["control"]
+    n = len(spec["tn"])
+    tn, td, sn, pn = arrays(spec)
+    obs = 0.1 + 0.1 * np.arange(n)
+    try:
+        s0 = Screen(treatment_names=tn, treatment_doses=td, sample_names=sn, plate_names=pn, control_treatment_name=control,
+                    observations=obs, observation_mask=np.ones(n, dtype=bool))
+    except Exception as exc:  # noqa: BLE001
+        col.refused += 1
+        col.outcome("derived", "refused", type(exc).__name__)
+        return
+    col.evaluations += 1
+    cells = _cells_of(spec)
+    if is_nontrivial(cells, control):
+        col.nontriv("derived", n, pattern(cells, control))
+    for op in case.get("ops", DERIVED_OPS):
+        col.transitions += 1
+        try:
+            outs = derived_screens(s0, op)
+        except Exception as exc:  # noqa: BLE001
+            if exception_origin_in_repo(exc) and not isinstance(exc, ValueError):
+                col.violation(f"C01|derived|{op}|raised", f"{_describe(spec, control)}: {op} raised {short_exc(exc)}", dict(case, ops=[op]))
+            else:
+                col.refused += 1
+                col.outcome("derived", op, "refused", type(exc).__name__)
+            continue
+        for which, s in enumerate(outs):
+            col.evaluations += 1
+            own = _own_spec(s)
+            own_control = s.control_treatment_name
+            col.outcome("derived", op, which, tuple(np.asarray(s.treatment_ids).ravel().tolist()), own_control == control)
+            if not own["tn"]:
+                continue
+            # a derived screen may carry its parent's (larger) mappings: its ids follow its own mappings, which are dense themselves
+            res = judge_screen(own, own_control, s, supplied_t=s.treatment_mapping, supplied_s=s.sample_mapping)
+            for what, ids, floor in (("treatment", s.treatment_mapping[2], 1), ("sample", s.sample_mapping[1], 0)):
+                got = _int_list(ids)
+                nonctl = sorted(set(t for t in (got or []) if t != CTL or not floor))
+                if got is None or nonctl != list(range(len(nonctl))):
+                    res.append((f"C01|mapping|{what}-not-dense", f"the {what} mapping of the returned screen carries ids {got}"))
+            head = f"{_describe(spec, control)} -> {op}[{which}] = {_describe(own, own_control)}"
+            for sig, msg in res:
+                col.violation(sig.replace("C01|", f"C01|derived|{op}|", 1), f"{head}: {msg}", dict(case, ops=[op]))
+            if verbose:
+                print(head, "->", res or "ok")
+
+
 def run_merge_item(item, col):
     names = sorted(set(MERGE_LAYOUTS[item["layout"]]))
     pairs = [(a, b) for a in names for b in names if a != b]
@@ -583,6 +689,8 @@ def run_case(case, col, verbose=False):
         return run_merge_case(case, col, verbose)
     if kind == "manyids":
         return run_manyids_case(case, col, verbose)
+    if kind == "derived":
+        return run_derived_case(case, col, verbose)
     control = case.get("control", "")
     if kind == "enc1d":
         names = case["names"]
@@ -881,6 +989,19 @@ def run_item(item, col, tier):
                     "spec": screen_spec(item["alpha"], item["arity"], item["rows"], i), "mapping": None}
             col.states += 1
             run_case(case, col)
+            if i == item["lo"]:
+                col.sample(case)
+        return
+
+    if k == "derived":
+        for i in range(item["lo"], item["hi"]):
+            spec = screen_spec(item["alpha"], item["arity"], item["rows"], i)
+            n = item["rows"]
+            spec["sn"] = [DERIVED_NAMES[(i // 3 ** r) % 3] for r in range(n)]
+            spec["pn"] = ["p" if r < (n + 1) // 2 else "p " for r in range(n)]
+            case = {"kind": "derived", "control": control, "spec": spec}
+            col.states += 1
+            run_derived_case(case, col)
             if i == item["lo"]:
                 col.sample(case)
         return
